@@ -122,7 +122,7 @@ func microTrial(mode int, spin int, withReq bool, timeout time.Duration) (evs []
 		l.offer(srv)
 		<-done
 	}
-	lg.Add("SR", 0, serr == nil)
+	lg.AddRet(0, resOf(serr)[:1])
 	if serr != nil && !errors.Is(serr, context.DeadlineExceeded) {
 		note = fmt.Sprintf("Shutdown returned %v", serr)
 	}
@@ -178,7 +178,7 @@ func microTrial(mode int, spin int, withReq bool, timeout time.Duration) (evs []
 	}
 	cancel2()
 	evs = lg.Snapshot()
-	evs = withDeadline(evs, "SC", timeout)
+	evs = withDeadline(evs, "SC", 0, timeout)
 	return evs, note
 }
 
